@@ -28,6 +28,16 @@ pub fn parse_u32_literal(
     ))
 }
 
+pub fn parse_f32_literal(
+    string: &str,
+    (l, r): (Location, Location),
+) -> Result<f32, crate::diagnostic::Diagnostic> {
+    string.parse().map_err(|err| error!(
+        message("bad float literal"),
+        primary(Span::from_locs(l, r), "{}", err)
+    ))
+}
+
 /// Parse a string literal, including surrounding quotes
 pub fn parse_string_literal(
     string: &str,
